@@ -33,6 +33,9 @@ mod transaction;
 mod transaction_mut;
 mod utilities;
 
+#[cfg(agdb_verif)]
+pub mod verif;
+
 //#[cfg(any(test, doctest))] //TODO: Enable once doctest is stabilised
 pub mod test_utilities;
 
